@@ -652,7 +652,7 @@ bn_digit_div__int(bn_digit_t dividend_lo, bn_digit_t dividend_hi, bn_digit_t div
 		    (reg_dividend_hi << (BN_DIGIT_BITS - num_bits)));
 		(*result_hi) = (reg_dividend_hi >> num_bits);
 		(*remainder_lo) = (reg_dividend_lo & ((((bn_digit_t)1) << num_bits) - 1));
-		(*remainder_hi) = (reg_dividend_hi & ((((bn_digit_t)1) << (BN_DIGIT_BITS - num_bits)) - 1));
+		(*remainder_hi) = 0; /* The remainder is smaller than the (one digit) divisor. */
 		return (0);
 	}
 #endif
